@@ -152,7 +152,13 @@ func (c *RPCClient) SendRequestAsync(ctx context.Context, addr string, req *tikv
 	}
 	select {
 	case batchConn.batchCommandsCh <- entry:
-		// will be fulfilled in batch send/recv loop.
+		// will be fulfilled in batch send/recv loop - unless the conn was closed around the enqueue and the send loop
+		// has already stopped taking entries out of the queue.
+		select {
+		case <-batchConn.closed:
+			entry.error(errors.New("batchConn closed"))
+		default:
+		}
 	case <-ctx.Done():
 		// will be fulfilled by the after callback of ctx.
 	case <-batchConn.closed:
